@@ -352,7 +352,7 @@ func c03r4(r *R) {
 	}
 	// first pipe right after the settings loop
 	p1 := find(func(w bufWrite) bool {
-		return w.Const && w.Text == "|" && !hasGuardContaining(c.guardStrs(w.I.Block()), "-", "phi(builtin.len(p0.Priorities)|p1)")
+		return w.Const && w.Text == "|" && !hasGuard(c.guardStrs(w.I.Block()), "-(0 == phi(builtin.len(p0.Priorities)|p1))")
 	})
 	// ---- WU part
 	oW := r.Ob("C03.R4", "window-update-part").At(m.Pos())
@@ -415,7 +415,7 @@ func c03r4(r *R) {
 		oP.Check(reachesAfter(sid[0].I, ex1[0].I) && reachesAfter(ex1[0].I, dw[0].I) && instrDominates(sid[0].I, dw[0].I), "priority entry parts are not written in the order stream:exclusive:dependency:weight")
 	}
 	comma := find(func(w bufWrite) bool {
-		return w.Const && w.Text == "," && hasGuardContaining(c.guardStrs(w.I.Block()), "+", "builtin.len(p0.Priorities[:")
+		return w.Const && w.Text == "," && hasGuardContaining(c.guardStrs(w.I.Block()), "+", " < builtin.len(p0.Priorities[:")
 	})
 	if oP.Check(len(comma) == 1, "expected one ',' between priority entries, found %d", len(comma)) {
 		gs := c.guardStrs(comma[0].I.Block())
@@ -445,7 +445,7 @@ func c03r4(r *R) {
 		}
 	}
 	hc := find(func(w bufWrite) bool {
-		return w.Const && w.Text == "," && hasGuardContaining(c.guardStrs(w.I.Block()), "+", "builtin.len(p0.Headers)")
+		return w.Const && w.Text == "," && hasGuardContaining(c.guardStrs(w.I.Block()), "+", " < builtin.len(p0.Headers))")
 	})
 	if oH.Check(len(hc) == 1, "expected one ',' between pseudo-header letters, found %d", len(hc)) {
 		gs := c.guardStrs(hc[0].I.Block())
@@ -554,7 +554,7 @@ func checkInjectorRow(r *R, rule, canonName, fnName string) {
 	nf := c.Func("pkg/fingerprint", "NewFingerprintHeaderInjector")
 	if o.Check(nf != nil, "NewFingerprintHeaderInjector not found") {
 		eachInstr(nf, func(i ssa.Instruction) {
-			if al, ok := i.(*ssa.Alloc); ok && strings.HasSuffix(typeName(al.Type()), "FingerprintHeaderInjector") {
+			if al, ok := i.(*ssa.Alloc); ok && allocOfStruct(al, "FingerprintHeaderInjector") {
 				f := complitFields(al)
 				o.Check(f["HeaderName"] != nil && c.Expr(f["HeaderName"]) == "p0" && f["FingerprintFunc"] != nil && c.Expr(f["FingerprintFunc"]) == "p1", "constructor stores (HeaderName=%s, FingerprintFunc=%s)", exprOrNil(c, f["HeaderName"]), exprOrNil(c, f["FingerprintFunc"]))
 			}
@@ -597,7 +597,7 @@ func checkInjectorRow(r *R, rule, canonName, fnName string) {
 	nh := c.Func("pkg/reverseproxy", "NewHTTPHandler")
 	if o.Check(nh != nil, "NewHTTPHandler not found") {
 		eachInstr(nh, func(i ssa.Instruction) {
-			if al, ok := i.(*ssa.Alloc); ok && strings.HasSuffix(typeName(al.Type()), "HTTPHandler") {
+			if al, ok := i.(*ssa.Alloc); ok && allocOfStruct(al, "HTTPHandler") {
 				f := complitFields(al)
 				o.Check(f["HeaderInjectors"] != nil && c.Expr(f["HeaderInjectors"]) == "p2", "handler's HeaderInjectors is %s", exprOrNil(c, f["HeaderInjectors"]))
 			}
